@@ -24,7 +24,7 @@ T == CASE World = "W4" -> {<<"r">>, <<"r","a">>, <<"r","a","x">>, <<"r","b">>}
 Leaves == {m \in T : StrictDesc(T, m) = {}}
 
 \* candidate imports: a leaf file imports any other module that is not below it
-\* (child -> ancestor included: that is the DontCare corner)
+\* (child -> ancestor included: 'sub modules of P' importing P itself)
 Cand == {e \in Leaves \X T : e[1] # e[2]}
 
 VARIABLE imports
